@@ -130,6 +130,23 @@ func init() {
 		"termination ('no endless loop') except where a loop carries a variant (none of the loops in this check read their bound from the image without a check)",
 		"total allocation over a call",
 	}
+	propAssumptions["C01"] = []string{
+		"scope: fat12 package write path (shared by FAT12/16/32): File.Write, allocateSpace, writeDirectoryEntries, plus the handle contract of File.Read/Seek/Close (C10)",
+		"the receiver filesystem object was allocated as a FileSystem (its immutable fields start, dataStart, bytesPerCluster are stable across unknown calls); FATTable methods are called through the interface (SetCluster call sites are enumerated and each carries the all-or-nothing assertion)",
+	}
+	propNotDecided["C01"] = []string{
+		"equality with a reference tree over arbitrary operation sequences, live and after re-opening the image",
+		"directory entry encoding/decoding, long-name to 8.3 conversion, numeric tails, case-insensitive lookup, Rename/Remove semantics",
+		"cluster contents written equal the bytes handed to Write (placement and sizes are pinned, data flow is p[a:b] handed unchanged to WriteAt)",
+		"space reuse without limit (Remove leaks the chain: known, D9), getClusterList on cyclic chains (D17)",
+	}
+	propAssumptions["C08"] = []string{
+		"scope: the FAT encoders/writers named in functions_under_contract; see C01 for the shared write path and C14 for the Create layout clause",
+	}
+	propNotDecided["C08"] = []string{
+		"the whole-volume invariants of the property (identical FAT copies, chains in range and terminated, no cross-linked or orphan clusters, sizes covered by chains, Create geometry, identical backup boot sector, sane FSInfo counters)",
+		"12-bit packing correctness of fat12WriteEntry/fat12ReadEntry (only freshness and length of Bytes are proved)",
+	}
 	propAssumptions["C12"] = []string{"partition.Read: GPT is probed before MBR (call-site assertions); filesystem probing in disk.GetFilesystem is not under contract"}
 	propNotDecided["C12"] = []string{"filesystem type recognition (disk.GetFilesystem and the per-filesystem Read acceptance tests)", "stale bytes of a previous filesystem", "labels and contents"}
 }
